@@ -68,9 +68,9 @@ static void prop_invalid_class(Tape &t, Ctx &c) {
 
 static std::vector<Prop> props() {
     return {
-        Prop("equiv_solver", prop_equiv_solver, 250, 4000, 100, 80, {1}, 4, 8),
-        Prop("equiv_precond_class", prop_equiv_precond_class, 200, 3000, 100, 80, {1}, 4, 8),
-        Prop("invalid_class", prop_invalid_class, 100, 1000, 100, 10, {1}, 1, 1),
+        Prop("equiv_solver", prop_equiv_solver, 250, 4000, 100, 4, {1}, 4, 8),
+        Prop("equiv_precond_class", prop_equiv_precond_class, 200, 3000, 100, 4, {1}, 4, 8),
+        Prop("invalid_class", prop_invalid_class, 100, 1000, 100, 1, {1}, 1, 1),
     };
 }
 static std::vector<Enum> enums() { return {}; }
